@@ -26,7 +26,6 @@ ASSUME TopT \in Nat
 TS == 0..TopT
 NoId == 0
 Empty == [x \in {} |-> 0]
-Bundles == UNION {[S -> TS] : S \in SUBSET Id}
 
 (* (timestamp, id) pairs ordered lexicographically *)
 Later(t1, i1, t2, i2) == t1 > t2 \/ (t1 = t2 /\ i1 > i2)
@@ -50,9 +49,7 @@ Fold(b, order, lt, lid) ==
 FindLatest(b, order) == Fold(b, order, 0, NoId)
 
 \* every iteration order a HashMap may produce
-OrdersOf(S) == {s \in [1..Cardinality(S) -> S] : \A x, y \in 1..Cardinality(S) : x # y => s[x] # s[y]}
-OrdersTable == [S \in SUBSET Id |-> OrdersOf(S)]          \* constant: evaluated once by TLC
-Orders(S) == OrdersTable[S]
+Orders(S) == {s \in [1..Cardinality(S) -> S] : \A x, y \in 1..Cardinality(S) : x # y => s[x] # s[y]}
 
 (* The property's definition of "latest": maximum by (timestamp, id) *)
 MaxOf(b) ==
@@ -170,6 +167,7 @@ GeneratedBecomesLatestStep ==
 GeneratedBecomesLatest == [][GeneratedBecomesLatestStep]_vars
 
 TypeOK ==
-    /\ bundle \in Bundles /\ latest \in Id \cup {NoId}
+    /\ DOMAIN bundle \subseteq Id /\ \A x \in DOMAIN bundle : bundle[x] \in TS
+    /\ latest \in Id \cup {NoId}
     /\ latest # NoId => latest \in DOMAIN bundle
 =============================================================================
